@@ -388,7 +388,7 @@ FN('new', props=['C09'], ret='r',
 FN('analyze_request', props=['C02', 'C17', 'C09'], ret='r',
    requires=[('aux.analyze_request.wf', 'old(self).wf()')],
    ensures=[
-       ('C17.analysis_exact_and_not_cached_on_error', 'Self::post_analyze(old(self), final(self), r)'),
+       ('C02/C17.analysis_exact_and_not_cached_on_error', 'Self::post_analyze(old(self), final(self), r)'),
        ('aux.analyze_request.wf', 'final(self).wf()'),
    ],
    head='broadcast use axiom_key_val_bytes; proof { axiom_literals(); }',
@@ -423,7 +423,7 @@ END()
 
 IMPL('impl BodyState')
 FN('need_response_body', props=['C06', 'C09'], ret='r',
-   ensures=[('C06.need_body', 'r == !(self.reader == Some(BodyReader::NoBody) || self.reader == Some(BodyReader::LengthDelimited(0)))')])
+   ensures=[('C06/C09.need_body', 'r == !(self.reader == Some(BodyReader::NoBody) || self.reader == Some(BodyReader::LengthDelimited(0)))')])
 END()
 
 # ------------------------------------------------------------------ Call<WithoutBody>
@@ -565,7 +565,7 @@ FN('write', props=['C02', 'C03', 'C04', 'C17', 'C18', 'C19', 'C01', 'C16'], ret=
        ('C17.rejected_before_any_byte', '(!old(self).analyzed) && r is Err && !(r->Err_0 == Error::OutputOverflow) ==> *final(self) == *old(self) && final(output)@ == old(output)@'),
        ('C02.maximal', '(!old(self).analyzed || old(self).state.phase is SendLine || old(self).state.phase is SendHeaders) && r is Ok && (final(self).state.phase is SendLine || final(self).state.phase is SendHeaders) ==> r->Ok_0.1 + next_line(&final(self).request, final(self).state.phase).len() > old(output).len()'),
        ('aux.WithBody.write.request_kept', 'final(self).request.request == old(self).request.request && final(self).state.skip_method_body_check == old(self).state.skip_method_body_check'),
-       ('C03/C04.body_bytes', '''old(self).analyzed && old(self).state.phase is SendBody ==>
+       ('C03/C04/C18/C19.body_bytes', '''old(self).analyzed && old(self).state.phase is SendBody ==>
             post_write_body(old(self), final(self), input@, old(output).len() as nat, |n: nat| final(output)@.subrange(0, n as int), r)'''),
    ],
    head='proof { axiom_slice_len(input); }',
@@ -588,7 +588,7 @@ FN('consume_direct_write', props=['C04'], ret='r',
 FN('is_prelude', props=['C02', 'C09'], ret='r', ensures=[('aux.WithBody.is_prelude', 'r == (self.state.phase is SendLine || self.state.phase is SendHeaders)')])
 FN('is_body', props=['C02', 'C09'], ret='r', ensures=[('aux.WithBody.is_body', 'r == (self.state.phase is SendBody)')])
 FN('is_chunked', props=['C03', 'C18'], ret='r', ensures=[('aux.WithBody.is_chunked', 'r == (self.state.writer.mode is Chunked)')])
-FN('is_finished', props=['C03', 'C04', 'C09'], ret='r', ensures=[('C03/C04.finished_flag', 'r == self.state.writer.ended')])
+FN('is_finished', props=['C03', 'C04', 'C09'], ret='r', ensures=[('C03/C04/C09.finished_flag', 'r == self.state.writer.ended')])
 FN('into_receive', props=['C09'], ret='r',
    ensures=[('C09.into_receive_iff_body_finished', '''if self.state.writer.ended {
                 r is Ok && r->Ok_0.request == self.request && r->Ok_0.analyzed == self.analyzed && r->Ok_0.state.phase == Phase::RecvResponse
@@ -730,12 +730,12 @@ FN('try_response', props=['C05', 'C06', 'C11', 'C12', 'C01'], ret='r',
    )
 FN('is_finished', props=['C09', 'C05'], ret='r', ensures=[('aux.RecvResponse.is_finished', 'r == (self.state.reader is Some)')])
 FN('into_body', props=['C06', 'C09'], ret='r',
-   ensures=[('C06.into_body', '''match self.state.reader {
+   ensures=[('C06/C09.into_body', '''match self.state.reader {
             None => r is Err,
             Some(BodyReader::NoBody) => r is Ok && r->Ok_0 is None,
             Some(rd) => r is Ok && r->Ok_0 is Some && r->Ok_0->Some_0.state.reader == Some(rd) && r->Ok_0->Some_0.state.phase == Phase::RecvBody && r->Ok_0->Some_0.request == self.request }''')])
 FN('need_response_body', props=['C06', 'C09'], ret='r',
-   ensures=[('C06.need_body', 'r == !(self.state.reader == Some(BodyReader::NoBody) || self.state.reader == Some(BodyReader::LengthDelimited(0)))')])
+   ensures=[('C06/C09.need_body', 'r == !(self.state.reader == Some(BodyReader::NoBody) || self.state.reader == Some(BodyReader::LengthDelimited(0)))')])
 FN('do_into_body', props=['C09'], ret='r',
    ensures=[('aux.do_into_body', '''r.request == self.request && r.analyzed == self.analyzed && r.state.phase == Phase::RecvBody && r.state.writer == self.state.writer && r.state.reader == self.state.reader
             && r.state.skip_method_body_check == self.state.skip_method_body_check && r.state.stop_on_chunk_boundary == self.state.stop_on_chunk_boundary''')])
@@ -773,7 +773,7 @@ FN('is_on_chunk_boundary', props=['C07'], ret='r',
    ensures=[('aux.RecvBody.is_on_chunk_boundary', 'self.state.reader->Some_0 is Chunked ==> r == (self.state.reader->Some_0->Chunked_0 is Size)')])
 FN('is_ended', props=['C07', 'C08', 'C09'], ret='r',
    requires=[('C09.reader_present', 'self.state.reader is Some')],
-   ensures=[('C08.complete_iff', '''r == match self.state.reader->Some_0 { BodyReader::NoBody => true, BodyReader::LengthDelimited(v) => v == 0,
+   ensures=[('C07/C08/C09.complete_iff', '''r == match self.state.reader->Some_0 { BodyReader::NoBody => true, BodyReader::LengthDelimited(v) => v == 0,
             BodyReader::Chunked(d) => d is Ended, BodyReader::CloseDelimited => false }''')])
 FN('is_close_delimited', props=['C08', 'C10'], ret='r',
    requires=[('C09.reader_present', 'self.state.reader is Some')],
